@@ -585,6 +585,41 @@ def call_specs(rep, F, rule='NUMERAL-SHAPE'):
                     seen.setdefault((nm, 'digits'), set()).add(view(args[0]) == TB.T('param', 3))
                     seen.setdefault((nm, 'sign'), set()).add(norm(args[1]) == ('field', this, 'sign'))
                     seen.setdefault((nm, 'exponent = -scale'), set()).add(add(lin2(args[2]), lin(('field', this, 'scale'))) == {})
+        # the paths above leave every loop after zero iterations; a loop that changes the length of the digit string (or
+        # steps the exponent) before they are handed on is not covered by them and drops / invents digits
+        from rules.iterexit import _sccs
+        from facts import cres as _cres
+        for b0, t0 in fn.calls():
+            if not re.search(r'impl_fmt::format_exponential_bigendian_ascii_digits$', _cres(t0) or '') or len(t0['args']) < 3:
+                continue
+            carriers = {}
+            for idx, role in ((0, 'digits'), (2, 'exponent')):
+                o = t0['args'][idx]
+                if o.get('k') in ('copy', 'move'):
+                    work = [o['pl']['l']]
+                    while work:
+                        l = work.pop()
+                        if l in carriers:
+                            continue
+                        carriers[l] = role
+                        for _, st in fn.stmts():
+                            if st['lhs']['l'] == l and not st['lhs']['p'] and st['rv']['r'] in ('use', 'cast') and st['rv']['op'].get('k') in ('copy', 'move') and not st['rv']['op']['pl']['p']:
+                                work.append(st['rv']['op']['pl']['l'])
+            refs = {}
+            for _, st in fn.stmts():
+                if st['rv']['r'] == 'ref' and st['rv'].get('mut') and st['rv']['pl']['l'] in carriers and not st['lhs']['p']:
+                    refs[st['lhs']['l']] = st['rv']['pl']['l']
+            for comp in _sccs(fn):
+                for bb in sorted(comp):
+                    blk = fn.blocks[bb]
+                    for st in blk['st']:
+                        if st['s'] == 'assign' and carriers.get(st['lhs']['l']) == 'exponent' and not st['lhs']['p']:
+                            seen.setdefault((nm_sink(t0), 'exponent = -scale'), set()).add(False)
+                    tt = blk['term']
+                    if tt['t'] == 'call' and re.search(r'Vec::<.*>::(pop|push|truncate|remove|insert|drain|resize|clear)$|Vec::(pop|push|truncate|remove|insert|drain|resize|clear)$', _cres(tt) or ''):
+                        a0 = tt['args'][0] if tt['args'] else None
+                        if a0 and a0.get('k') in ('copy', 'move') and not a0['pl']['p'] and carriers.get(refs.get(a0['pl']['l'])) == 'digits':
+                            seen.setdefault((nm_sink(t0), 'digits'), set()).add(False)
         for (nm, what), oks in sorted(seen.items()):
             n += 1
             key = '%s->%s:%s' % (fn.key, nm, what.split(' ')[0])
@@ -593,6 +628,11 @@ def call_specs(rep, F, rule='NUMERAL-SHAPE'):
             else:
                 rep.violation(rule, key, 'the %s handed to %s is not that of the decimal being formatted' % (what, nm), fn.where())
     return n
+
+
+def nm_sink(t):
+    from facts import cres
+    return TB._plain(cres(t) or '').split('::')[-1]
 
 
 def check(rep, F, rule='NUMERAL-SHAPE'):
